@@ -40,9 +40,11 @@ def plan(tier, seed):
 
 def verdict(src):
     """-> ('accept'|'reject'|'internal', message)"""
-    CompilerError, _ = env.compiler_error_types()
+    CompilerError, Internal = env.compiler_error_types()
     try:
         env.typecheck_src(src)
+    except Internal as e:
+        return 'internal', f'{type(e).__name__}: {e}'
     except CompilerError as e:
         return 'reject', f'{type(e).__name__}: {e}'
     except RecursionError:
@@ -51,6 +53,8 @@ def verdict(src):
         return 'internal', f'{type(e).__name__}: {e} @ {diff.innermost_hidc_frame(e)}'
     try:
         env.compile_src(src, word=2, stack=500)
+    except Internal as e:
+        return 'internal', f'accepted by the typechecker, then {type(e).__name__}: {e}'
     except CompilerError as e:
         return 'accept', f'(code generation: {type(e).__name__}: {e})'
     except Exception as e:  # noqa
